@@ -29,7 +29,7 @@ Violations(e) ==
   IF e.case = "transparent"
   THEN (IF e.fields # <<>> THEN {"Transparent"} ELSE {})
        \cup (IF e.status # e.wantSt THEN {"StatusPassedThrough"} ELSE {})
-       \cup (IF e.servedE # "e" THEN {"ServedByTheEndpoint"} ELSE {})
+       \cup (IF e.servedE # e.target THEN {"ServedByTheEndpoint"} ELSE {})
   ELSE (IF want \in {"400", "502", "504"} /\
            e.status # (IF want = "400" THEN 400 ELSE IF want = "502" THEN 502 ELSE 504)
         THEN {"StatusMapping"} ELSE {})
